@@ -15,7 +15,7 @@ RULE = ("Cases are (ns, nswin, overlap, fs) with 0 <= overlap < nswin. The box n
         "last window shorter than 2*overlap) or (overlap 0 with >=2 windows) or ns <= nswin. Distinct = distinct triple.")
 EXHAUSTIVE_NOTE = "box ns x nswin x overlap enumerated completely (see rule); random triples beyond the box are sampled"
 ASSUMPTIONS = ["splicing sums are evaluated on arrays only for ns <= 200000; larger random cases check intervals only"]
-BUDGET = {"quick": 3000, "thorough": 60000}
+BUDGET = {"quick": 10000, "thorough": 60000}
 BOX = {"quick": (160, 32), "thorough": (400, 64)}
 
 
